@@ -39,16 +39,24 @@ Qed.
 Lemma forallb_In {A : Type} (f : A -> bool) l x : forallb f l = true -> In x l -> f x = true.
 Proof. intros H Hin. rewrite forallb_forall in H. auto. Qed.
 
-Lemma cond_ok env c p a :
-  cond_wfb env c = true -> prefix_wfb p = true -> cond_matches env c p a = cond_ref env c p a.
+(* a matcher function that agrees with the bit-level matchers on valid prefixes *)
+Definition mm_ok (mm : matcher -> prefix -> prefix -> bool) : Prop :=
+  forall m pat p, prefix_wfb pat = true -> prefix_wfb p = true -> mm m pat p = m_ref m pat p.
+
+Lemma matcher_match_ok : mm_ok matcher_match.
+Proof. intros m pat p. apply matcher_ok. Qed.
+
+Lemma cond_ok_w mm env c p a :
+  mm_ok mm ->
+  cond_wfb env c = true -> prefix_wfb p = true -> cond_matches_w mm env c p a = cond_ref env c p a.
 Proof.
-  intros Wc Wp. unfold cond_wfb in Wc. apply andb_true_iff in Wc. destruct Wc as [Wpl Wrf].
-  unfold cond_matches, cond_ref. f_equal; [f_equal; [f_equal; [f_equal |] |] |].
-  - unfold matches_prefix_lists. rewrite part_any. apply part_ext_in. intros l Hl.
-    unfold pl_matches. rewrite any_of_existsb. apply existsb_ext_in. intros q Hq.
-    apply matcher_ok; auto. apply (forallb_In _ _ _ (forallb_In _ _ _ Wpl Hl) Hq).
-  - unfold matches_route_filters. rewrite part_any. apply part_ext_in. intros f Hf.
-    unfold rf_matches. apply matcher_ok; auto. apply (forallb_In _ _ _ Wrf Hf).
+  intros Hmm Wc Wp. unfold cond_wfb in Wc. apply andb_true_iff in Wc. destruct Wc as [Wpl Wrf].
+  unfold cond_matches_w, cond_ref. f_equal; [f_equal; [f_equal; [f_equal |] |] |].
+  - unfold matches_prefix_lists_w. rewrite part_any. apply part_ext_in. intros l Hl.
+    unfold pl_matches_w. rewrite any_of_existsb. apply existsb_ext_in. intros q Hq.
+    apply Hmm; auto. apply (forallb_In _ _ _ (forallb_In _ _ _ Wpl Hl) Hq).
+  - unfold matches_route_filters_w. rewrite part_any. apply part_ext_in. intros f Hf.
+    unfold rf_matches_w. apply Hmm; auto. apply (forallb_In _ _ _ Wrf Hf).
   - unfold matches_community_filters, comms_of. destruct (c_cfs c) as [| f0 fs] eqn:E; [reflexivity |].
     simpl is_nil. cbv iota. destruct (pa_bgp a) as [b |].
     + rewrite any_of_existsb. unfold part. apply existsb_ext_in. intros f _.
@@ -63,6 +71,10 @@ Proof.
     + unfold part. simpl existsb at 2. rewrite (existsb_const_false (f0 :: fs)). reflexivity.
   - unfold matches_protocols. rewrite part_any. apply part_ext_in. intros t _. apply N.eqb_sym.
 Qed.
+
+Lemma cond_ok env c p a :
+  cond_wfb env c = true -> prefix_wfb p = true -> cond_matches env c p a = cond_ref env c p a.
+Proof. apply cond_ok_w. exact matcher_match_ok. Qed.
 
 (* ------------------------------------------------------------------ AS path prepend *)
 
